@@ -892,13 +892,32 @@ def loop_rows(facts, body, header, env_extra=None, unfold='default'):
     mods, _ = s0.loop_mods(header)
     arrive = [r for r in s0.rows() if r.end == ('stop', header)]
     env = {}
+    defaults = {repr(s0.default_local(l)): l for l in mods}
+
+    def at_entry(t):
+        """a loop-modified local mentioned in an arrival value denotes its value on arrival, not the current one"""
+        if not isinstance(t, tuple):
+            return t
+        if t[0] in ('v', 't') and repr(t) in defaults:
+            return ('v0', t[1] if t[0] == 'v' else '_%d' % t[1], defaults[repr(t)])
+        out = []
+        for x in t:
+            if isinstance(x, tuple):
+                out.append(at_entry(x))
+            elif isinstance(x, list):
+                out.append([at_entry(y) if isinstance(y, tuple) else y for y in x])
+            elif isinstance(x, dict):
+                out.append({k: (at_entry(v) if isinstance(v, tuple) else v) for k, v in x.items()})
+            else:
+                out.append(x)
+        return tuple(out)
     if arrive:
         for l, v in arrive[0].env.items():
             if l in mods or l == 0:
                 continue
             k = cstr(v)
             if all(l in r.env and cstr(r.env[l]) == k for r in arrive[1:]):
-                env[l] = v
+                env[l] = at_entry(v)
     if env_extra:
         env.update(env_extra)
     enclosing = {h for h, blks in loops.items() if header in blks and h != header}
@@ -974,3 +993,108 @@ def row_consistent(row, atoms):
         elif x != v:
             return False
     return True
+
+
+class SimError(Exception):
+    pass
+
+
+def simulate(facts, body, inputs, maxiter=64, extra_atoms=None):
+    """Walk the summaries of a function with at most one level of loops for ONE assignment of its inputs
+    (inputs: canonical string of an input term -> integer). At every decision point exactly one summary row must be
+    selected by the assignment. Returns (events, end, ret) where events = [(callee short path, call block, [argument values
+    or None])] in program order. This evaluates the decision table the summaries form; it is used on small finite grids
+    that cover every ordering of the inputs."""
+    from .rl import Unsupported, EvalPanic
+    loops = body.loops()
+    outer = [h for h in loops if not any(h in blks and h2 != h for h2, blks in loops.items())]
+    sym = Sym(facts, body)
+    events = []
+
+    def mk_atoms(state, state0):
+        def atoms(t):
+            if t[0] == 'v0':
+                return state0.get(t[2])
+            if t[0] in ('v', 't'):
+                l = t[2] if t[0] == 'v' else t[1]
+                if l in state and repr(sym.default_local(l)) == repr(t):
+                    return state[l]
+            if extra_atoms is not None:
+                x = extra_atoms(t)
+                if x is not None:
+                    return x
+            return inputs.get(cstr(t))
+        return atoms
+
+    def pick(rows, atoms, where):
+        sel = []
+        for r in rows:
+            try:
+                if row_holds(r, atoms):
+                    sel.append(r)
+            except (Unsupported, EvalPanic) as e:
+                raise SimError('%s: a decision cannot be evaluated (%s)' % (where, e))
+        if len(sel) != 1:
+            raise SimError('%s: %d paths selected' % (where, len(sel)))
+        return sel[0]
+
+    def record(r, atoms):
+        for e in r.effects:
+            if e[0] != 'call':
+                continue
+            vals = []
+            for a in e[1][2]:
+                try:
+                    v = teval(a, atoms)
+                    vals.append(v if isinstance(v, int) else None)
+                except (Unsupported, EvalPanic, KeyError, TypeError):
+                    vals.append(None)
+            events.append((short(e[1][1]), e[1][3], vals))
+
+    state = {}
+    at0 = mk_atoms({}, {})
+    r = pick(Sym(facts, body, start=0, stop=set(outer)).rows(), at0, 'entry')
+    record(r, at0)
+    steps = 0
+    while r.end not in ('return', 'diverge'):
+        h = r.end[1]
+        mods, _ = sym.loop_mods(h)
+        if not state.get('_in') == h:
+            # arrival: concrete values of the loop-carried locals
+            st = {}
+            for l in mods:
+                try:
+                    v = teval(r.env.get(l, sym.default_local(l)), mk_atoms(state, state.get('_s0', {})))
+                    if isinstance(v, int):
+                        st[l] = v
+                except (Unsupported, EvalPanic, KeyError, TypeError):
+                    pass
+            state = dict(st)
+            state['_s0'] = dict(st)
+            state['_in'] = h
+        atoms = mk_atoms(state, state['_s0'])
+        r = pick([x for x in loop_rows(facts, body, h)], atoms, 'iteration of the loop at bb%d' % h)
+        record(r, atoms)
+        if r.end == ('stop', h):
+            new = dict(state)
+            for l in mods:
+                if l in r.env:
+                    try:
+                        v = teval(r.env[l], atoms)
+                        if isinstance(v, int):
+                            new[l] = v
+                        else:
+                            new.pop(l, None)
+                    except (Unsupported, EvalPanic, KeyError, TypeError):
+                        new.pop(l, None)
+            state = new
+        steps += 1
+        if steps > maxiter:
+            raise SimError('more than %d iterations' % maxiter)
+    ret = None
+    if r.ret is not None:
+        try:
+            ret = teval(r.ret, mk_atoms(state, state.get('_s0', {})))
+        except (Unsupported, EvalPanic, KeyError, TypeError):
+            ret = r.ret
+    return events, r.end, ret
